@@ -18,7 +18,7 @@ from ..astq import assignments, calls, local_from, local_from_text, params, stmt
 from ..callgraph import fkey
 from ..cfg import cond_atoms, flatten_conj, path_conditions
 from ..report import Check
-from ..source import AnalysisError, Project, ancestors, body_walk, dotted, enclosing_stmt, last_attr, norm, parent, qual_of, short
+from ..source import AnalysisError, Project, ancestors, body_walk, dotted, enclosing_func, enclosing_stmt, last_attr, norm, parent, qual_of, short
 from .common import world
 from .ctxrules import check_forwarding_condition, deferred_live_context, forwarding_loops, isolated_copy_ops, partial_stack_views
 
@@ -43,6 +43,31 @@ def run(chk: Check, proj: Project) -> None:
     s7(chk, proj, w)
     s8(chk, proj, w)
     s9(chk, proj, w)
+    s10(chk, proj, w)
+
+
+def s10(chk: Check, proj: Project, w) -> None:
+    chk.rule("S10", "every component render registers its reference (unconditionally: the dynamic shim too - its target registers only in the deferred phase, after {% endprovide %}); the error clean-up of a provider unregisters only the references of THAT provider")
+    r = proj.try_func("component", "Component._render_with_id") or proj.try_func("component", "Component._render_impl")
+    m, f = r  # type: ignore[misc]
+    reg = [c for c in calls(f, "register_provide_reference") if enclosing_func(c) is f]
+    if len(reg) != 1:
+        chk.undecided("S10", "component:render:registers-unconditionally", m.loc(f), f"{len(reg)} register_provide_reference calls")
+    else:
+        ok = enclosing_stmt(reg[0]) in f.body
+        chk.ob("S10", "component:render:registers-unconditionally", m.loc(reg[0]), ok,
+               "register_provide_reference(context, render_id) is a top-level statement of the render" if ok else
+               f"`{short(reg[0])}` is conditional ({[t for t, _p in cond_atoms(enclosing_stmt(reg[0]))][:2]}): a component that skips it holds no reference while it waits for its deferred render, the provider's data is deleted at {{% endprovide %}} and inject() below it raises KeyError")
+    pm, pf = proj.func("perfutil.provide", "managed_provide_cache")
+    pid = params(pf)[0]
+    loops = [lp for lp in ast.walk(pf) if isinstance(lp, ast.For) and any(isinstance(c, ast.Call) and last_attr(c.func) == "unregister_provide_reference" for c in ast.walk(lp))]
+    if not loops:
+        chk.holds("S10", "perfutil.provide:managed_provide_cache:error-cleanup-own-references-only", pm.loc(pf), "no bulk unregistration in the provider's error path", nontrivial=False)
+    for lp in loops:
+        ok = any(isinstance(x, ast.Name) and x.id == pid for x in ast.walk(lp.iter))
+        chk.ob("S10", "perfutil.provide:managed_provide_cache:error-cleanup-own-references-only", pm.loc(lp), ok,
+               f"the clean-up iterates `{short(lp.iter)}` (keyed by `{pid}`)" if ok else
+               f"the clean-up iterates `{short(lp.iter)}`, which is not restricted to `{pid}`: an error that leaves one provider (and is caught by the application) unregisters every waiting component of every provider; their data is deleted and a later inject() raises KeyError")
 
 
 def s9(chk: Check, proj: Project, w) -> None:
